@@ -8,8 +8,10 @@ from harness.common import bud
 from harness.sessions import SB
 
 PROP = "C20"
-MODULES = ["CassisModel.Properties.C20", "CassisModel.Properties.C20Ids", "CassisModel.Properties.C20Sens", "CassisModel.Properties.C20Iso"]
+MODULES = ["CassisModel.Properties.C20", "CassisModel.Properties.C20Ids", "CassisModel.Properties.C20Sens", "CassisModel.Properties.C20Iso", "CassisModel.Properties.C20IsoColl"]
 THEOREMS = [
+    "Cassis.Comparable.render_xmi_roundtrip_coll",
+    "Cassis.Comparable.renderVal_budget_saturated",
     "Cassis.Comparable.renderFrom_iso",
     "Cassis.Comparable.distinct_iso",
     "Cassis.Comparable.render_xmi_roundtrip_flat",
@@ -363,7 +365,34 @@ def sorted_ok(text):
     return True
 
 
+def run_nested(ctx, out, budget):
+    ns = nested_sessions(ctx.rng(7), bud(budget, 40, 2000))
+    impl = sessions.run_impl_sessions([x[0] for x in ns])
+    model = sessions.run_model_sessions(ctx.driver, [x[0] for x in ns])
+    for si, (ops, i0, depth) in enumerate(ns):
+        sc = {"k": "session", "ops": ops, "variant": "nested"}
+        out.evaluations += 1
+        out.count("variant:nested/depth=%d" % depth)
+        if "ok" not in impl[si][i0]:
+            out.oracle_failures.append({"scenario": sc, "op_index": i0, "what": "cas_to_comparable_text raised", "actual": impl[si][i0]})
+        if model is not None and model[si] is not None:
+            # several array objects of one type without offsets: their order (and the anchor counters that follow it) is outside
+            # the property's side condition; the CELLS - the nested renderings - are what this stream compares
+            def canon_nested(i, x, ops=ops):
+                x = canon_op(i, x, ops)
+                if i == i0 and isinstance(x, dict) and isinstance(x.get("ok"), dict) and "text" in x["ok"]:
+                    import re as _re
+                    return {"ok": sorted(_re.sub(r'^"FSArray\*?(\(\d+\))?"', '"FSArray"', ln) for ln in x["ok"]["text"].split("\n"))}
+                return x
+            d = sessions.first_diff(impl[si], model[si], canon_nested)
+            if d is not None:
+                out.disagreements.append({"scenario": sc, "op_index": d, "op": ops[d] if d < len(ops) else None,
+                                          "impl": impl[si][d] if d < len(impl[si]) else None,
+                                          "model": canon_nested(d, model[si][d]) if d < len(model[si]) else None})
+
+
 def run(ctx, out, budget):
+    run_nested(ctx, out, budget)
     out.rule = ("CASes built from an abstract description satisfying the property's side condition (annotation types incl. equal short "
                 "names in different packages and a feature named `type`, two record types, 1-3 views with astral text, references, "
                 "inline and shared FSArrays with null elements, Integer/String arrays, FS lists, indexed and only-referenced structures). "
@@ -495,6 +524,33 @@ def run(ctx, out, budget):
             out.nontriv((k, tag))
         if si < 2:
             out.sample({"variant": tag, "text_head": (text or "")[:300]})
+
+
+def nested_sessions(rng, n):
+    """small heaps with deeply nested FSArrays (arrays of arrays, also holding annotations, null, themselves): the rendering
+    recurses through them; the model's recursion budget must never be what decides (Python's only limit is its recursion depth)"""
+    out = []
+    for k in range(n):
+        sb = SB()
+        ts = sb.ts_new()
+        sb.create_type(ts, "x.Doc", "uima.tcas.Annotation")
+        sb.create_feature(ts, "x.Doc", "fsa", "uima.cas.FSArray", multi=rng.choice([None, True]))
+        h = sb.cas_new(ts, text="abcdef")
+        depth = rng.randint(1, 6)
+        anns = [sb.fs_new(ts, "x.Doc", {"begin": i, "end": i + 1}) for i in range(rng.randint(1, 2))]
+        cur = sb.fs_new(ts, "uima.cas.FSArray", {"elements": {"rs": [rng.choice(anns + [None]) for _ in range(rng.randint(0, 2))]}})
+        for _ in range(depth):
+            elems = [cur] + [rng.choice(anns + [None]) for _ in range(rng.randint(0, 1))]
+            rng.shuffle(elems)
+            cur = sb.fs_new(ts, "uima.cas.FSArray", {"elements": {"rs": elems}})
+        sb.op(op="fs.set", fs=anns[0], path="fsa", v={"r": cur})
+        for a in anns:
+            sb.op(op="cas.add", h=h, fs=a)
+        if rng.random() < 0.5:
+            sb.op(op="cas.add", h=h, fs=cur)
+        i0 = sb.op(op="cas.comparable", h=h)
+        out.append((sb.ops, i0, depth))
+    return out
 
 
 def replay(ctx, payload):
